@@ -1209,6 +1209,12 @@ func checkC19Retry(ix *index, add addFn) {
 		if strings.Contains(r.Err, "request timeout exceeded") && !hasCls(r.Cls, "reqtimeout") {
 			add("sentinel", fmt.Sprintf("OnError got %q which errors.As does not identify as RequestTimeoutError", r.Err), nil)
 		}
+		// requests run with the task loop's own background context: a deadline that
+		// reaches OnError can only be the response timeout, first transmission or
+		// retransmission alike
+		if hasCls(r.Cls, "deadline") && !hasCls(r.Cls, "reqtimeout") && ix.sc.Cfg.ResponseTimeoutUs != 0 {
+			add("sentinel", fmt.Sprintf("OnError got %q (a deadline) which errors.As does not identify as RequestTimeoutError although a response timeout is configured", r.Err), map[string]string{"want": "reqtimeout"})
+		}
 		if hasCls(r.Cls, "reqtimeout") && ix.sc.Cfg.ResponseTimeoutUs == 0 {
 			add("no-false-sentinel", fmt.Sprintf("RequestTimeoutError reported (%q) although no response timeout is configured", r.Err), nil)
 		}
